@@ -8,6 +8,7 @@ worlds; ids are only used inside one world, while the objects are alive, to dete
 from __future__ import annotations
 
 import collections
+import copy
 import collections.abc
 import inspect
 import re
@@ -527,6 +528,14 @@ def _deep_of(cls, allowed=None, full=True):
     out["fields"] = [_safe(lambda a=a: _field_row(a)) for a in tup] if full else None
     if full:
         out["ft_saw"] = allowed.get("__ft__")
+        if allowed.get("__who__") == "def":
+            # the method written in THIS body keeps answering with this class (zero-argument super() / __class__)
+            out["who"] = attempt(lambda: _blank(cls, RAW1).who() is cls)
+        # what inspect shows as the source of every generated method (through linecache)
+        # (the hash script embeds hash(filename), a number that depends on the universe's class-name suffix)
+        out["source"] = {m: attempt(lambda m=m: re.sub(r"-?\d{6,}", "N", inspect.getsource(d[m]))) for m in
+                         ("__init__", "__attrs_init__", "__eq__", "__hash__", "__repr__")
+                         if m in d and slot_of(cls, m) == "gen"}
 
         def lab(v):
             ow = getattr(v, "__dict__", {}).get("owner") if isinstance(v, type) else None
@@ -680,6 +689,8 @@ class World:
         self.fp_bases = fp_bases
         self.sfx = case_suffix(case) + tag
         self.bases = {}
+        self.last_who = None
+        self.raw_objs = {}             # harness-only `obj` key -> [raw class, owner, did the last attempt on it fail?]
         self.modules = {}
         self.ft_seen = []
         self.mids = {}
@@ -1060,6 +1071,14 @@ class World:
         if facts["hasPost"]:
             env["POST"] = post_init
             lines.append("    __attrs_post_init__ = POST")
+        # a method with a `__class__` cell: written in this body ("def"), or the very function object of the most
+        # recent earlier class that wrote one ("reuse": a class factory / redefinition re-using A's function)
+        if x.get("who") == "def":
+            lines.append("    def who(self):")
+            lines.append("        return __class__")
+        elif x.get("who") == "reuse" and self.last_who is not None:
+            env["WHO"] = self.last_who
+            lines.append("    who = WHO")
         if len(lines) == 1:
             lines.append("    pass")
         src = "\n".join(lines) + "\n"
@@ -1103,10 +1122,23 @@ class World:
         try:
             if "defDeco" in step:
                 facts = step["defDeco"]["c"]
-                raw = self.raw_class(facts)
+                key = facts.get("x", {}).get("obj")
+                ent = self.raw_objs.get(key) if key else None
+                if ent is not None and ent[2] and ent[3] == facts:      # (only the very same body is the same class object)
+                    raw, self.last_owner = ent[0], ent[1]       # a RETRY on the very class object of a rejected attempt
+                else:
+                    raw = self.raw_class(facts)
+                    ent = self.raw_objs[key] = [raw, self.last_owner, False, copy.deepcopy(facts)] if key else None
+                if ent is not None:
+                    ent[2] = True
                 cls = self.decos[step["defDeco"]["i"]](raw)
+                if ent is not None:
+                    ent[2] = False
+                who = facts.get("x", {}).get("who")
+                if who == "def" and inspect.isfunction(cls.__dict__.get("who")):
+                    self.last_who = cls.__dict__["who"]
                 self.allowed[id(cls)] = (cls, {self.last_owner: "own", "B:" + facts["base"] + self.sfx: "base",
-                                               self.shared: "shared", "__ft__": self.ft_seen[n_ft:]})
+                                               self.shared: "shared", "__ft__": self.ft_seen[n_ft:], "__who__": who})
             else:
                 m = step["defMk"]["m"]
                 a = m["args"]
